@@ -1146,18 +1146,21 @@ const EXPECTED: &[&str] = &[
 ];
 
 /// Does the script, run on fresh REAL objects only, trip the monitor `class`?
-fn real_violates(setup: &Setup, lines: &[String], class: &str) -> bool {
+fn real_violation(setup: &Setup, lines: &[String], class: &str) -> Option<String> {
     std::panic::catch_unwind(std::panic::AssertUnwindSafe(|| {
         let mut real = Real::new(setup.n, setup.t_units, setup.maxc, setup.wallclock, setup.age_parts);
         for l in lines {
             real.exec(l);
-            if real.viol.iter().any(|v| v.class == class) {
-                return true;
+            if let Some(v) = real.viol.iter().find(|v| v.class == class) {
+                return Some(v.what.clone());
             }
         }
-        false
+        None
     }))
-    .unwrap_or(false)
+    .unwrap_or(None)
+}
+fn real_violates(setup: &Setup, lines: &[String], class: &str) -> bool {
+    real_violation(setup, lines, class).is_some()
 }
 
 fn record(rep: &mut Report, stream: &str, setup: &Setup, lines: &[String], o: &Outcome) {
@@ -1179,7 +1182,8 @@ fn record(rep: &mut Report, stream: &str, setup: &Setup, lines: &[String], o: &O
             std::panic::set_hook(prev);
             v
         };
-        rep.violation(class, what, json!({"setup": setup.init_line(), "script": script, "unshrunk_len": lines.len()}));
+        let what = real_violation(setup, &script, class).unwrap_or_else(|| what.clone());
+        rep.violation(class, &what, json!({"setup": setup.init_line(), "script": script, "unshrunk_len": lines.len()}));
     }
 }
 
